@@ -2945,6 +2945,16 @@ impl LpgStore {
     pub fn set_epoch(&self, epoch: EpochId) {
         self.current_epoch.store(epoch.as_u64(), Ordering::SeqCst);
     }
+
+    /// Moves the current epoch forward to `epoch` (never backwards).
+    ///
+    /// Called when a transaction commits, so that everything that reads at the
+    /// store's own epoch (unlabelled scans, counts, snapshots, property access)
+    /// sees what the transaction manager has committed.
+    pub fn advance_epoch_to(&self, epoch: EpochId) {
+        self.current_epoch
+            .fetch_max(epoch.as_u64(), Ordering::SeqCst);
+    }
 }
 
 impl Default for LpgStore {
